@@ -285,9 +285,11 @@ namespace nmtools::utils
                 // TODO: use maybe type
                 auto t_shape = ::nmtools::shape(t);
                 auto u_shape = ::nmtools::shape(u);
-                nmtools_cassert( ::nmtools::utils::isequal(t_shape,u_shape)
-                    , "shape mismatch for isclose"
-                );
+                // arrays of different shape are not close: report false
+                // (never pair elements of mismatched shapes, with or without NDEBUG)
+                if (!::nmtools::utils::isequal(t_shape,u_shape)) {
+                    return false;
+                }
                 auto t_indices = ndindex(t_shape);
                 auto u_indices = ndindex(u_shape);
                 auto numel = t_indices.size();
